@@ -128,8 +128,6 @@ pub fn run_case(case: &Value, out: &mut Out) {
     let mode = case.get("mode").and_then(|m| m.as_str()).unwrap_or("full").to_string();
     let meta = case.get("meta").cloned().unwrap_or(json!({}));
     let (bytes, prog, enc) = case_bytes(case);
-    // full validation recomputes every pixel in TLC: canvases beyond 2^16 pixels are only monitored
-    let mode = if mode == "full" && prog.as_ref().map_or(false, |p| p.hdr.w as usize * p.hdr.h as usize > (1 << 16)) { "light".to_string() } else { mode };
     out.ev(&json!({"ev": "begin", "case": id, "mode": mode, "meta": meta, "len": bytes.len(),
         "eof": enc.as_ref().map_or(bytes.len(), |e| e.end_of_frames),
         "hdr": prog.as_ref().map_or(json!([]), |p| json!([p.hdr])),
@@ -280,7 +278,7 @@ impl BlendOut {
 }
 
 const LATTICE: [u8; 11] = [0, 1, 2, 63, 64, 127, 128, 129, 191, 254, 255];
-const ALPHA_GRID: [u8; 12] = [0, 1, 2, 64, 127, 128, 129, 192, 253, 254, 255, 77];
+const ALPHA_GRID: [u8; 6] = [1, 64, 128, 192, 254, 255];
 const INT_MODES: [u16; 14] = [1, 2, 3, 4, 5, 6, 7, 8, 9, 10, 11, 16, 17, 18];
 
 /// blend --stratum chan|chanalpha|opacity|lattice|random|hsl|laws --seed S --n N --out prefix --shards K [--modes a,b]
@@ -309,7 +307,7 @@ pub fn blend_cmd(args: &[String]) {
                 o.emit(m, 255, 255, &v);
             }
         }
-        // all 2^16 (b, s) x 12x12 alpha grid, op from --n selects how many (lop,cop) settings (1..3)
+        // all 2^16 (b, s) x 6x6 alpha grid, op from --n selects how many (lop,cop) settings (1..3)
         "chanalpha" => {
             let ops: Vec<(u8, u8)> = [(255u8, 255u8), (255, 128), (1, 255)].iter().copied().take(n.clamp(1, 3)).collect();
             for &m in modes.iter().filter(|m| INT_MODES.contains(m)) {
